@@ -14,6 +14,10 @@ ALGOS = None
 
 
 def make(family, rng, tier):
+    if family == "preempt":
+        scn = sysgen.gen_preempt(rng, tier, offgrid=rng.random() < 0.5)
+        scn["oracles"] = ORACLES
+        return scn
     if family == "aimD3":
         # keeps the KNOWN-FINDING line honest: the listed finding is re-confirmed on every run of this check
         scn = sysgen.gen(rng, "priority-pool", PROP, tier)
@@ -38,4 +42,5 @@ TIMEOUT_IS_VIOLATION = True
 
 
 def plan(tier):  # noqa: F811
-    return [("sys", 6000 if tier == "quick" else 150000), ("gen", 600 if tier == "quick" else 12000), ("aimD3", 16)]
+    return [("sys", 6000 if tier == "quick" else 150000), ("gen", 600 if tier == "quick" else 12000), ("aimD3", 16),
+            ("preempt", 2000 if tier == "quick" else 40000)]
